@@ -18,9 +18,11 @@ CONSTANTS
   FeeClasses = {"f1", "ftyp", "fmax"}
   ScaleClasses = {"one", "grin", "max"}
   KernClasses = {"Plain", "HeightLocked"}
-  ViaClasses = {"transaction", "with_kernel", "partial", "block"}
+  ViaClasses = {"transaction", "with_kernel", "partial", "block", "exchange"}
   CbFeeClasses = {"cf0", "cf1", "cftyp", "cfmax40", "cfmax64"}
   AlgStride = 1
   CbStride = 4
   ShapeStride = 37
-INVARIANTS TypeOK BuilderBalances CoinbaseOK EmitShape
+  PairStride = 1
+  WalPicks = 1
+INVARIANTS TypeOK BuilderBalances ExchangeOK CoinbaseOK EmitShape
